@@ -2,6 +2,8 @@
 # tools/seed_matrix.sh "<seed> <check>" ... : run each stored seeded change against a check, print one verdict line each
 cd "$(dirname "$0")/.."
 for pair in "$@"; do set -- $pair
-  r=$(tools/mutant_run.sh seeded/$1/patch.diff $2 2>&1 | grep -E "MUTANT-RESULT|signature=" | head -4 | tr '\n' ' ' | cut -c1-400)
-  echo "SEEDRUN $1 vs $2: $r"
+  out=$(tools/mutant_run.sh seeded/$1/patch.diff $2 2>&1)
+  rc=$(echo "$out" | grep -o "MUTANT-RESULT.*rc=[0-9]*" | grep -o "rc=[0-9]*")
+  sigs=$(echo "$out" | grep "^  signature=" | cut -c1-160 | head -3 | tr '\n' '|')
+  echo "SEEDRUN $1 vs $2: $rc $sigs"
 done
